@@ -3,7 +3,7 @@ reference decoder (spec/update.py)"""
 import copy
 import random
 
-from .registry import bounded, replayer
+from .registry import bounded, replayer, region
 
 
 def _neg(msg_size, families, addpath=False):
@@ -71,6 +71,8 @@ def _case(msg_size, padlen, v4, v6, w4, w6, v4nh6=(), w6m=(), addpath=False):
         except (AssertionError, ValueError, IndexError) as e:
             return {'what': f'generated UPDATE does not parse on its own: {e}', 'input': inp}
         has_attrs = any(t != 14 and t != 15 for _, t, _ in d['attributes'])
+        if not d['nlri'] and not d['withdrawn'] and not any(p for _a, _s, _n, p in d['mp_reach']) and not any(p for _a, _s, p in d['mp_unreach']):
+            return {'what': 'a generated UPDATE carries no route at all (attributes only, or the End-of-RIB nobody asked for)', 'input': inp, 'message': m.hex()[:120]}
         for pid, lab, rd, bits, body in d['nlri']:
             if not has_attrs:
                 return {'what': 'IPv4 NLRI announced without its attributes', 'input': inp}
@@ -103,7 +105,20 @@ def _case(msg_size, padlen, v4, v6, w4, w6, v4nh6=(), w6m=(), addpath=False):
         return {'what': 'messages carry something that was not requested', 'input': inp, 'extra': str((got_a - exp_a, got_w - exp_w))[:300]}
     if (exp_a - got_a or exp_w - got_w) and room >= 60:
         return {'what': 'requested routes missing from the generated messages', 'input': inp, 'missing': str((exp_a - got_a, exp_w - got_w))[:300]}
+    if exp_w - got_w:
+        # "when the attributes leave no room for even one prefix no message is produced for THOSE routes": a withdrawal
+        # carries no attribute, it always fits
+        return {'what': 'a requested withdrawal is missing from the generated messages (the attributes leave no room for the announces, which a withdrawal does not need)', 'input': inp, 'missing': str(exp_w - got_w)[:300], 'room_for_nlri': room}
     return None
+
+
+@region('C09-withdrawal-lost-behind-oversized-attributes')
+def withdrawal_lost_region(failure):
+    """recorded defect: UpdateCollection.messages() computes the room for NLRI from the attributes before it looks at what is
+    left to send, and gives up (`return`) when an announce does not fit: the IPv4 withdrawals of the same collection, which
+    need no attribute, are never generated.  Only a missing withdrawal, only when the attributes leave less than 60 octets
+    (with 60 or more the older clause 'requested routes missing' applies and stays enforced)."""
+    return failure.get('what', '').startswith('a requested withdrawal is missing') and failure.get('room_for_nlri', 99) < 60
 
 
 @bounded('C09', 'sizes-straddling-limits')
